@@ -229,20 +229,50 @@ NAMES = ['A', 'B', 'C', 'D', 'E', 'F', 'G', 'H', 'I', 'J', 'K', 'L', 'M', 'N', '
 
 # label mode of the implementation call in progress (set by Ctx.differential for a share of the cases): 'std' = 'A', 'B', ... ;
 # 'ints0' = the integers 0, 1, ... - candidates numbered from 0, the first of them a falsy object (a test like `if winner:` where
-# `if winner is not None:` is meant shows only there).  The wire values (1-based numbers) do not change.
+# `if winner is not None:` is meant shows only there); 'objs' = opaque objects without an ordering (sorted() over candidates - say in an
+# error message - is a TypeError there).  The wire values (1-based numbers) do not change.
 LABEL_MODE = ['std']
+
+
+class Cand:
+    """an opaque candidate object: hashable, comparable for equality only (no ordering: sorted() over such candidates is a TypeError)"""
+    __slots__ = ('k',)
+
+    def __init__(self, k):
+        self.k = k
+
+    def __hash__(self):
+        return hash(('Cand', self.k))
+
+    def __eq__(self, other):
+        return isinstance(other, Cand) and other.k == self.k
+
+    def __repr__(self):
+        return 'Cand(%d)' % self.k
+
+    def __deepcopy__(self, memo):
+        return self
+
+
+_CANDS = {}
 
 
 def cname(k):
     """candidate number (1-based) -> default Python object"""
     if LABEL_MODE[0] == 'ints0':
         return k - 1
+    if LABEL_MODE[0] == 'objs':
+        if k not in _CANDS:
+            _CANDS[k] = Cand(k)
+        return _CANDS[k]
     return NAMES[k - 1] if k <= len(NAMES) else 'X%d' % k
 
 
 def cnum(name):
     if isinstance(name, int) and not isinstance(name, bool) and LABEL_MODE[0] == 'ints0':
         return name + 1
+    if isinstance(name, Cand):
+        return name.k
     if name in NAMES:
         return NAMES.index(name) + 1
     return int(name[1:])
